@@ -81,6 +81,7 @@ structure KSt where
   wrOff : List (String × Nat) := []            -- "<socket>/<stream>" ↦ next offset to write
   wrKeys : List (Nat × String) := []
   rs : List (String × (String × R)) := []      -- resolvers: name ↦ (node, state)
+  loops : List (Nat × (String × String × Nat × Nat × Nat)) := []   -- handler ↦ (kind, socket, a, b, c): self-perpetuating transfers
   hidden : List String := []                   -- sockets of a socket-returning accept, not yet handed to the program
   pendNew : List (Nat × String) := []          -- accept handler ↦ the socket it will hand over           -- write handler ↦ its offset key                    -- capture log (reversed)
   pend : List (Nat × Nat) := []     -- timer ↦ handler id of the wait whose slot may be busy
@@ -430,6 +431,16 @@ def objNode (op : List String) (s : KSt) : String :=
   | _ :: nd :: _ => nd
   | _ => ((s.net.cfg.nodes.head?).map Prod.fst).getD "n0"
 
+/-- one round of `write_loop`: write the next chunk of the stream -/
+def loopWrite (p : KParams) (hn : Nat) (name : String) (stream total chunk : Nat) (s : KSt) : KSt :=
+  let key := name ++ "/" ++ toString stream
+  let off := (s.wrOff.lookup key).getD 0
+  let len := min chunk (total - min total off)
+  let data := (List.range len).map (fun i => streamByte stream (off + i))
+  let s := { s with wrKeys := (hn, key) :: s.wrKeys.filter (·.1 != hn) }
+  let r := s.net.tcpAsyncWrite name { h := hn, bufs := [data], stream := stream, off := off }
+  applyNEffs p netFuel r.2 { s with net := r.1 }
+
 /-- ops on TCP sockets (`s<k>`), acceptors (`a<k>`) and UDP sockets (`u<k>`). `none` = not a
     network op. Result strings are those of harness/simdrv_net.cpp. -/
 def doNetOp (p : KParams) (ctx : String) (op : List String) (s : KSt) : Option KSt :=
@@ -548,6 +559,18 @@ def doNetOp (p : KParams) (ctx : String) (op : List String) (s : KSt) : Option K
               let caps := (cutSizes ((findNat? rest "cap").getD 1) ((findNat? rest "bufs").getD 1)).filter (· > 0)
               some (res (fx (s.net.tcpAsyncRead name { h := hn, caps := caps }) s) "-")
           | "wait_read", h :: _ => (hOf h).map (fun hn => res (fx (s.net.tcpWaitRead name hn) s) "-")
+          | "read_loop", h :: rest =>
+            (hOf h).map (fun hn =>
+              let cap := (findNat? rest "cap").getD 4096
+              let s := { s with loops := (hn, ("read", name, cap, 0, 0)) :: s.loops.filter (·.1 != hn) }
+              res (fx (s.net.tcpAsyncRead name { h := hn, caps := [cap] }) s) "-")
+          | "write_loop", h :: rest =>
+            (hOf h).map (fun hn =>
+              let stream := (findNat? rest "stream").getD 0
+              let total := (findNat? rest "total").getD 1
+              let chunk := (findNat? rest "chunk").getD 1000
+              let s := { s with loops := (hn, ("write", name, stream, total, chunk)) :: s.loops.filter (·.1 != hn) }
+              res (loopWrite p hn name stream total chunk s) "-")
           | "read_nb", rest =>
             let caps := (cutSizes ((findNat? rest "cap").getD 1) ((findNat? rest "bufs").getD 1)).filter (· > 0)
             let r := s.net.tcpReadNb name caps
@@ -809,7 +832,18 @@ def pollLoop (p : KParams) (scn : Scn) : Nat → KSt → Nat → KSt × Nat
           let s := match s.pendNew.lookup t.h with
             | some nn => { s with hidden := s.hidden.filter (· != nn), pendNew := s.pendNew.filter (·.1 != t.h) }
             | none => s
-          doOps p scn 8 h (scn.ops h) s
+          -- self-perpetuating transfers re-issue themselves; their context's ops run when they end
+          match s.loops.lookup t.h with
+          | some ("read", sock, cap, _, _) =>
+            if ec == Ec.ok then
+              let r := s.net.tcpAsyncRead sock { h := t.h, caps := [cap] }
+              applyNEffs p netFuel r.2 { s with net := r.1 }
+            else doOps p scn 8 h (scn.ops h) { s with loops := s.loops.filter (·.1 != t.h) }
+          | some ("write", sock, stream, total, chunk) =>
+            let key := sock ++ "/" ++ toString stream
+            if ec == Ec.ok && (s.wrOff.lookup key).getD 0 < total then loopWrite p t.h sock stream total chunk s
+            else doOps p scn 8 h (scn.ops h) { s with loops := s.loops.filter (·.1 != t.h) }
+          | _ => doOps p scn 8 h (scn.ops h) s
       -- an exception leaves poll_one() at once: no step hook, no further handler
       if s.thrown then (s, n) else
       -- step hook `after_handler`: scenario ops placed at this event boundary
